@@ -7,7 +7,8 @@ from engine import registry, runner, pure, common
 prop = sys.argv[1]; tier = sys.argv[2] if len(sys.argv) > 2 else "quick"; kind = sys.argv[3] if len(sys.argv) > 3 else None
 common.setup_env()
 ent = registry._REG[prop]()
-spec = ent.spec if hasattr(ent, "spec") else ent.specs[0]
+SPECS = {"C12": registry._fit, "C07": lambda: registry._rowframe("C07"), "C06": lambda: registry._rowframe("C06")}
+spec = ent.spec if hasattr(ent, "spec") else SPECS[prop]()
 model = runner.model_stage(spec, tier)
 states, total = pure.select_states(model["dump"], spec.sample[tier], prop, keep=lambda b: spec.keep in b, always=spec.always)
 if spec.case_filter: states = [s for s in states if spec.case_filter(s[spec.in_field])]
